@@ -39,6 +39,9 @@ type cmdDef struct {
 	auth  security.SecurityLevel
 	enc   security.SecurityLevel
 	integ security.SecurityLevel
+	// useDefault: the per-command selector returns nil for this command; auth/enc/integ
+	// then hold the server's default policy, which is what must be met
+	useDefault bool
 }
 
 type invocation struct {
@@ -71,8 +74,8 @@ var allPerms = []string{"READ", "WRITE", "DAEMON"}
 
 func (z *zoo) policy(cmd int) *security.SecurityConfig {
 	d := z.defs[cmd]
-	if d == nil {
-		return nil
+	if d == nil || d.useDefault {
+		return nil // "no per-command policy": the server's default configuration applies
 	}
 	cfg := hs.Cfg(d.auth, d.enc, []security.AuthMethod{security.AuthClaimToBe}, hs.AES, security.NoCommand)
 	cfg.Integrity = d.integ
@@ -206,6 +209,18 @@ func run(s *kernel.Sim, c *scen.Case) {
 	}
 	redraw()
 	base := hs.Cfg(security.SecurityOptional, security.SecurityOptional, []security.AuthMethod{security.AuthClaimToBe}, hs.AES, security.NoCommand)
+	if p.Kind != "cube" && t.Chance("default-policy-commands", 1, 2) {
+		// some commands have no policy of their own: the selector returns nil for them and
+		// the server's default (drawn, usually stricter than the permissive commands) applies
+		base.Authentication, base.Encryption = lvl("base.auth"), lvl("base.enc")
+		if t.Chance("base.integ", 1, 4) {
+			base.Integrity = security.SecurityRequired
+		}
+		for _, cmd := range z.order[3:] {
+			d := z.defs[cmd]
+			d.useDefault, d.auth, d.enc, d.integ = true, base.Authentication, base.Encryption, base.Integrity
+		}
+	}
 	srv := server.New(base)
 	srv.SecurityConfigForCommand = func(cmd int) *security.SecurityConfig { return z.policy(cmd) }
 	if z.useAuth {
@@ -274,6 +289,20 @@ func run(s *kernel.Sim, c *scen.Case) {
 		return clientSpec{auth: lvl("cl.auth"), enc: lvl("cl.enc"), keyless: t.Chance("cl.keyless", 1, 5)}
 	}
 	pickCmd := func() int { return z.order[t.Choose("cmd", len(z.order))] }
+	changePolicy := func() {
+		d := z.defs[z.order[t.Choose("pc.cmd", len(z.order))]]
+		d.auth, d.enc = lvl("pc.auth"), lvl("pc.enc")
+		if d.useDefault {
+			// the command has no policy of its own: what changes is the server's default,
+			// and with it every command that falls back to it
+			base.Authentication, base.Encryption = d.auth, d.enc
+			for _, o := range z.defs {
+				if o.useDefault {
+					o.auth, o.enc = d.auth, d.enc
+				}
+			}
+		}
+	}
 
 	s.Go("driver", func() {
 		defer cancel()
@@ -321,8 +350,7 @@ func run(s *kernel.Sim, c *scen.Case) {
 					}
 					if t.Chance("policy-change", 1, 5) {
 						// policy and authorizer change while the connection is kept alive
-						d := z.defs[z.order[t.Choose("pc.cmd", len(z.order))]]
-						d.auth, d.enc = lvl("pc.auth"), lvl("pc.enc")
+						changePolicy()
 						redraw()
 						s.Fault("policy-changed")
 					}
@@ -394,8 +422,7 @@ func run(s *kernel.Sim, c *scen.Case) {
 					cs.ep.Close()
 				}
 			case kind == 7: // time passes / policy and authorizer change between connections
-				d := z.defs[z.order[t.Choose("pc.cmd", len(z.order))]]
-				d.auth, d.enc = lvl("pc.auth"), lvl("pc.enc")
+				changePolicy()
 				redraw()
 				s.Fault("policy-changed")
 				s.Sleep("driver", time.Duration(1+t.Choose("sleep", 120))*time.Second)
